@@ -9,7 +9,7 @@ from .. import units as U
 from ..anf import is_zero, short
 from ..cfg import MustPass, raises_with_guards, enclosing_handlers
 from ..facts import (physics_seeds, tensor_seeds, KeyObj, KEYS21, CALC, VOLBASE, PRSBASE, ADAPTER, QHACALC, QVOL, QPRS,
-                     V, T, PTV, PDES, VTP, LONG)
+                     V, T, PTV, PDES, VTP, LONG, qha_attr_hook)
 from ..libsum import lib_func, positional_params
 from ..model import dotted_name, src, body_wo_doc
 from ..report import AnalysisError
@@ -50,7 +50,7 @@ def setup(ctx, model):
     seeds, intr, calc = physics_seeds(model)
     tensor_seeds(calc)
     intr["qha.v2p.v2p"] = v2p_intrinsic
-    ev = Ev(model, seeds, intr, ctx=ctx)
+    ev = Ev(model, seeds, intr, attr_hook=qha_attr_hook, ctx=ctx)
     vol = Obj(VOLBASE, {"calculator": calc})
     prs = Obj(PRSBASE, {"calculator": calc})
     calc.attrs["volume_based_result"] = vol
